@@ -55,6 +55,9 @@ class BackendConcrete(Backend):
 
     @staticmethod
     def BVV(value, size):
+        if value is None:
+            # the empty interval (claripy.ESI) is a constant leaf without a value: nothing to compute with
+            raise BackendError("the concrete backend cannot handle the empty value")
         return bv.BVV(value, size)
 
     @staticmethod
